@@ -8,9 +8,8 @@
   path of the suite): what `ResultFilter.__call__` decides is C12's subject, the views must agree with the tests
   WHATEVER the decisions are.
 
-  `ReportStats.from_suites` computes a duration `results[-1].end_time - results[0].start_time` when the report is
-  not parallelized: it raises on a forest whose last result is still in progress (`ViewErr.noneTime`, D34) and on a
-  forest without any result (`IndexError`, `ViewErr.noResults`).
+  `ReportStats.from_suites` computes a duration when the report is not parallelized; since the repair D34 it is `None`
+  (not an exception) on a forest whose last result is still in progress or that holds no result.
   Core Lean only.
 -/
 import LccModel.Model.Views
@@ -61,24 +60,26 @@ def forestTests (ss : List SuiteResult) : List TestResult := (flattenSuites ss).
 def firstStart (rs : List AnyResult) : Option (Option Time) := rs.head?.map (·.result.startTime)
 def lastEnd (rs : List AnyResult) : Option (Option Time) := rs.getLast?.map (·.result.endTime)
 
-/-- `ReportStats.from_suites(suites, parallelized)` over a forest in accessor order:
-    `from_results(results, results[-1].end_time - results[0].start_time if not parallelized else None)` -/
-def statsFromSuites (parallelized : Bool) (ss : List SuiteResult) : Except ViewErr Stats :=
-  let results := flattenResults ss
-  let tests := results.filterMap anyIsTest
-  let stats : Stats :=
-    { total := tests.length, passed := countStatus .passed tests, failed := countStatus .failed tests,
-      skipped := countStatus .skipped tests, disabled := countStatus .disabled tests }
-  if parallelized then .ok stats
-  else match firstStart results, lastEnd results with
-    | some (some _), some (some _) => .ok stats
-    | none, _ => .error .noResults
-    | _, none => .error .noResults
-    | _, _ => .error .noneTime
+/-- `ReportStats.from_suites(suites, parallelized)` over a forest in accessor order — the numbers:
+    `from_results(list(flatten_results(suites)), …)`; every test of the forest counts, finished or not -/
+def statsFromSuites (ss : List SuiteResult) : Stats :=
+  let tests := (flattenResults ss).filterMap anyIsTest
+  { total := tests.length, passed := countStatus .passed tests, failed := countStatus .failed tests,
+    skipped := countStatus .skipped tests, disabled := countStatus .disabled tests }
+
+/-- … and whether it knows a duration: `_get_duration(results[0].start_time, results[-1].end_time) if results and not
+    parallelized else None` — `None` (printed "n/a") for a parallelized report, an empty forest, and while the first
+    start time or the LAST end time is missing (a run still in progress).  (Repaired by D34: the subtraction used to
+    be unguarded and raised `TypeError` / `IndexError` in those cases.) -/
+def fromSuitesDurationKnown (parallelized : Bool) (ss : List SuiteResult) : Bool :=
+  !parallelized &&
+    match firstStart (flattenResults ss), lastEnd (flattenResults ss) with
+    | some (some _), some (some _) => true
+    | _, _ => false
 
 /-- outcome classes of a `from_suites` call (decision table `Generated/C20TablesCheck.lean`) -/
 inductive FsOutcome
-  | ok (total passed : Nat)
+  | ok (total passed : Nat) (durationKnown : Bool)
   | typeError
   | indexError
 deriving DecidableEq, Repr, Inhabited
@@ -90,23 +91,24 @@ def summaryOf (s : Stats) : Summary :=
   { tests := s.total, successes := s.passed, failures := s.failed, skipped := nonZero s.skipped, disabled := nonZero s.disabled }
 
 /-- what `lcc report --short` prints: one line per test of every kept suite that has tests (its status decides the
-    label: OK / KO / --), then the summary — or "No test found or no matching test in the report" (`summary = none`) -/
+    label: OK / KO / --), then the summary (with a duration or "n/a") — or "No test found or no matching test in the
+    report" (`summary = none`) -/
 structure ShortView where
   lines : List (Path × TestResult)
   summary : Option Summary
+  durationKnown : Bool
 
 /-- `print_report_as_test_run(report, result_filter)`; `filt = none` is the falsy (criterion-less) filter:
-    it keeps everything and the summary comes from `ReportStats.from_report` -/
-def shortReport (r : Report) (filt : Option RFilter) : Except ViewErr ShortView :=
+    it keeps everything and the summary comes from `ReportStats.from_report` (duration = `Report.duration`).
+    Total: no report, finished or not, makes it raise. -/
+def shortReport (r : Report) (filt : Option RFilter) : ShortView :=
   let suites := filterSuiteList (filt.getD RFilter.all) [] (view r)
   let shown := (flattenListWithPath [] suites).filter (fun ps => !ps.2.tests.isEmpty)
   let lines := shown.flatMap (fun ps => ps.2.tests.map (fun t => (ps.1, t)))
-  if shown.isEmpty then .ok { lines := lines, summary := none }
+  if shown.isEmpty then { lines := lines, summary := none, durationKnown := false }
   else match filt with
-    | none => .ok { lines := lines, summary := some (summaryOf (statsOf r)) }
-    | some _ =>
-      match statsFromSuites (parallelized r) suites with
-      | .ok s => .ok { lines := lines, summary := some (summaryOf s) }
-      | .error e => .error e
+    | none => { lines := lines, summary := some (summaryOf (statsOf r)), durationKnown := r.startTime.isSome && r.endTime.isSome }
+    | some _ => { lines := lines, summary := some (summaryOf (statsFromSuites suites)),
+                  durationKnown := fromSuitesDurationKnown (parallelized r) suites }
 
 end LccModel.Views
